@@ -20,7 +20,7 @@ W = ('TLC enumerates every edge of the %s model (MCWorld family %s) for small co
      '(frame condition) - %s')
 CLAIMED = {
  'C01': world(W % ('List/Array', '"list"', 'every index, slot and range around the bounds, aliased operands.'), 'DESIGN.md 4/C01'),
- 'C02': world(W % ('Set', '"set"', 'three collators (natural, reversed, coarse); strict ascending order is a type invariant evaluated on every projected state.'), 'DESIGN.md 4/C02'),
+ 'C02': world(W % ('Set', '"set", "set2"', 'three collators (natural, reversed, coarse), family "set2": two Sets whose collators are chosen independently, bulk operations across them in both directions; strict ascending order is a type invariant evaluated on every projected state.'), 'DESIGN.md 4/C02'),
  'C03': world(W % ('Catalog', '"catalog", "keysC"', 'GetKeys, AsArray, iterator, GetValue for every key and size are cross-checked by the projection; pointer keys with equal pointees included.'), 'DESIGN.md 4/C03'),
  'C13': world(W % ('Stack', '"stack"', 'capacities 0..MaxLen and constructor arrays of 15, 16, 17 and 33 values around the default capacity.'), 'DESIGN.md 4/C13'),
  'C14': world(W % ('Map', '"map", "keysM"', 'unordered views are compared as sets of associations.'), 'DESIGN.md 4/C14'),
@@ -98,7 +98,7 @@ CLAIMED.update({
              'be rejected.', 'DESIGN.md 4/C11',
              'TLA+ grammar + meaning (Cdcn.tla): TLC-generated sentences parsed by the real parser, TLC judgement against the specified meaning'),
  'C12': cdcn('TLC generates every token sequence up to length 4-5 over an abstract alphabet, kind-mismatched documents, prefixes and '
-             'error injections at every token boundary of long documents; each is parsed by a fresh and by a long-lived notation under a '
+             'error injections at every token boundary of long documents, complete documents of 16/17/40 items of every collection kind; each is parsed by a fresh and by a long-lived notation under a '
              'watchdog; TLC judges the outcome class (value or diagnostic, never a runtime error / hang / history dependence) and '
              'recomputes token positions to locate the diagnostic; scanner goroutines left behind are counted.', 'DESIGN.md 4/C12',
              'TLA+ spec (Cdcn.tla) generating inputs and recomputing token positions; outcomes of the real parser judged by TLC'),
